@@ -35,7 +35,7 @@ func corrC12(r *Run) {
 		"any command_status, container sizes on both sides of 255/256, TLV and UDH value lengths on both sides of 65534/65535 and 255/256, " +
 		"messages on both sides of 140); non-trivial = distinct (type, value) with at least one field beyond the header; distinct by canonical value text"
 	ts := pduTypes()
-	n := r.N(24, 600) // per type
+	n := r.N(24, 600)         // per type
 	bigBudget := r.N(25, 600) // values whose term is tens of KiB are slow to parse inside coqc: a fixed number per run
 	for _, t := range ts {
 		for i := 0; i < n; i++ {
@@ -55,6 +55,7 @@ func corrC12(r *Run) {
 			}
 			before := clonePDU(p)
 			term := coqValue(before)
+			r.SetReplay(replayValue(before))
 			nret, err, w, panicked, pmsg := marshalRec(p)
 			cls := "ok"
 			if panicked {
